@@ -599,6 +599,16 @@ func (c *handlerCtx) bindReply(header Header) interface{} {
 	// unlock: handleReply
 	vp("reply.found", c.sess, int64(header.Seq()), 0)
 	c.callCmd.mu.Lock()
+	if _, ok = c.sess.callCmdMap.Load(header.Seq()); !ok {
+		// completed while this goroutine waited for the lock (its write
+		// failed, or a disconnect cancelled it): completing it once more
+		// would close its done channel twice or block on its full
+		// completion channel for ever
+		c.callCmd.mu.Unlock()
+		c.callCmd = nil
+		Warnf("not found call cmd: %v", c.input)
+		return nil
+	}
 	vp("reply.locked", c.sess, int64(header.Seq()), 0)
 	c.input.SetServiceMethod(c.callCmd.output.ServiceMethod())
 	c.swap = c.callCmd.swap
